@@ -150,3 +150,176 @@ Lemma pid_free_spec s p : pid_free s p = true <-> ~ In p (map snd (tensors s)).
 Proof. unfold pid_free. rewrite negb_true_iff. split.
   - intros H K. apply mem_in in K. congruence.
   - intro H. destruct (mem p (map snd (tensors s))) eqn:E; [apply mem_in in E; contradiction | reflexivity]. Qed.
+
+(* ---------- the invariant is preserved by every operation ---------- *)
+Lemma NoDup_map_filter {A B} (g : A -> B) (f : A -> bool) l : NoDup (map g l) -> NoDup (map g (filter f l)).
+Proof.
+  induction l as [|x l IH]; cbn [filter map]; intro N; [constructor|]. inversion N as [|? ? Hn N']; subst.
+  destruct (f x); cbn [map]; [constructor; [|auto] | auto].
+  intro K. apply Hn. apply in_map_iff in K as [y [E Hy]]. apply filter_In in Hy as [Hy _].
+  apply in_map_iff. exists y; auto.
+Qed.
+Lemma in_map_filter {A B} (g : A -> B) (f : A -> bool) l y : In y (map g (filter f l)) -> In y (map g l).
+Proof. intro K. apply in_map_iff in K as [x [E Hx]]. apply filter_In in Hx as [Hx _]. apply in_map_iff. eauto. Qed.
+
+Lemma gc_inv s : Inv s -> Inv (gc s).
+Proof.
+  intros [Ip Itl Iml Imt Ic Ie].
+  set (fm := fun k : uid * kmodel => reachable s (fst k)).
+  set (ms := filter fm (models s)).
+  set (held := flat_map (fun k : uid * kmodel => [fst (snd k); snd (snd k)]) ms).
+  set (ft := fun t : uid * pid => mem (fst t) held).
+  assert (Hm : forall m k, assoc m (models s) = Some k -> reachable s m = true -> assoc m ms = Some k).
+  { intros m k Hk Hr. unfold ms. rewrite assoc_filter; [exact Hk | intros; reflexivity | intros; exact Hr]. }
+  assert (Hms : forall m k, assoc m ms = Some k -> assoc m (models s) = Some k /\ reachable s m = true).
+  { intros m k Hk. unfold ms in Hk.
+    assert (In (m, k) (filter fm (models s))) by (apply assoc_in; exact Hk).
+    apply filter_In in H as [_ Hr]. split; [|exact Hr].
+    rewrite assoc_filter in Hk; [exact Hk | intros; reflexivity | intros; exact Hr]. }
+  assert (Hheld : forall m k, assoc m ms = Some k -> In (fst k) held /\ In (snd k) held).
+  { intros m k Hk. apply assoc_in in Hk. unfold held. split; apply in_flat_map; exists (m, k); cbn; auto. }
+  assert (Ht : forall t, In t held -> assoc t (filter ft (tensors s)) = assoc t (tensors s)).
+  { intros t Hh. apply assoc_filter; [intros; reflexivity | intros; unfold ft; cbn; apply mem_in; exact Hh]. }
+  constructor; cbn [gc tensors models roots cache explainers next]; fold fm ms held ft.
+  - apply NoDup_map_filter; exact Ip.
+  - intros t K. apply Itl. eapply in_map_filter; exact K.
+  - intros m K. apply Iml. eapply in_map_filter; exact K.
+  - intros m k Hk. destruct (Hheld m k Hk) as [H1 H2]. destruct (Hms m k Hk) as [Hk' _].
+    destruct (Imt m k Hk') as [T1 T2].
+    destruct (assoc_some _ _ T1) as [p1 P1]. destruct (assoc_some _ _ T2) as [p2 P2].
+    split; eapply assoc_in_fst; rewrite Ht by assumption; eassumption.
+  - intros key cm Hin. destruct (Ic key cm Hin) as [k [Hk [P1 P2]]].
+    assert (Hr : reachable s cm = true).
+    { unfold reachable. apply orb_true_iff; left. apply orb_true_iff; right. apply mem_in.
+      apply in_map_iff. exists (key, cm); auto. }
+    exists k. split; [apply Hm; assumption|].
+    destruct (Hheld cm k (Hm cm k Hk Hr)) as [H1 H2].
+    unfold pid_of in *. cbn [tensors]. rewrite !Ht by assumption. auto.
+  - intros e m Hin. destruct (Ie e m Hin) as [k Hk]. exists k. apply Hm; [exact Hk|].
+    unfold reachable. apply orb_true_iff; right. apply mem_in. apply in_map_iff. exists (e, m); auto.
+Qed.
+
+Lemma assoc_cons_ne {A} k a (v : A) l : a <> k -> assoc k ((a, v) :: l) = assoc k l.
+Proof. intro H. cbn. destruct (Nat.eqb_spec a k); [congruence | reflexivity]. Qed.
+
+Lemma step_inv s o : Inv s -> Inv (step s o).
+Proof.
+  intro I. destruct o as [pin pout | m0 | m | e m]; cbn [step].
+  - (* NewModel *)
+    destruct (pid_free s pin && pid_free s pout && negb (pin =? pout)) eqn:G; [|exact I].
+    apply andb_true_iff in G as [G G3]. apply andb_true_iff in G as [G1 G2].
+    apply pid_free_spec in G1. apply pid_free_spec in G2. apply negb_true_iff in G3. apply Nat.eqb_neq in G3.
+    destruct I as [Ip Itl Iml Imt Ic Ie].
+    assert (Fresh_t : forall t, In t (map fst (tensors s)) -> t <> next s /\ t <> S (next s))
+      by (intros t K; apply Itl in K; lia).
+    constructor; cbn [tensors models roots cache explainers next map fst snd].
+    + constructor; [intros [K|K]; [congruence | contradiction] | constructor; assumption].
+    + intros t [<-|[<-|K]]; [lia | lia | apply Itl in K; lia].
+    + intros m' [<-|K]; [lia | apply Iml in K; lia].
+    + intros m' k Hk. cbn [assoc] in Hk. destruct (Nat.eqb_spec (S (S (next s))) m').
+      * injection Hk as <-. cbn. auto.
+      * destruct (Imt m' k Hk). split; right; right; assumption.
+    + intros key cm Hin. destruct (Ic key cm Hin) as [k [Hk [P1 P2]]]. exists k.
+      assert (cm <> S (S (next s))) by (apply assoc_in_fst in Hk; apply Iml in Hk; lia).
+      split; [rewrite assoc_cons_ne by congruence; exact Hk|].
+      unfold pid_of in *. cbn [tensors].
+      destruct (Imt cm k Hk) as [T1 T2]. destruct (Fresh_t _ T1), (Fresh_t _ T2).
+      rewrite !assoc_cons_ne by congruence. auto.
+    + intros e m' Hin. destruct (Ie e m' Hin) as [k Hk]. exists k.
+      assert (m' <> S (S (next s))) by (apply assoc_in_fst in Hk; apply Iml in Hk; lia).
+      rewrite assoc_cons_ne by congruence. exact Hk.
+  - (* ShareIO *)
+    unfold find_model. destruct (assoc m0 (models s)) as [k0|] eqn:E; [|exact I].
+    destruct I as [Ip Itl Iml Imt Ic Ie].
+    constructor; cbn [tensors models roots cache explainers next map fst snd].
+    + exact Ip.
+    + intros t K. apply Itl in K. lia.
+    + intros m' [<-|K]; [lia | apply Iml in K; lia].
+    + intros m' k Hk. cbn [assoc] in Hk. destruct (Nat.eqb_spec (next s) m').
+      * injection Hk as <-. apply (Imt m0 k0 E).
+      * apply (Imt m' k Hk).
+    + intros key cm Hin. destruct (Ic key cm Hin) as [k [Hk P]]. exists k.
+      assert (cm <> next s) by (apply assoc_in_fst in Hk; apply Iml in Hk; lia).
+      split; [rewrite assoc_cons_ne by congruence; exact Hk | exact P].
+    + intros e m' Hin. destruct (Ie e m' Hin) as [k Hk]. exists k.
+      assert (m' <> next s) by (apply assoc_in_fst in Hk; apply Iml in Hk; lia).
+      rewrite assoc_cons_ne by congruence. exact Hk.
+  - (* Discard *)
+    apply gc_inv. destruct I as [Ip Itl Iml Imt Ic Ie]. constructor; cbn; auto.
+  - (* NewExplainer *)
+    unfold find_model. destruct (assoc m (models s)) as [k|] eqn:E; [|exact I].
+    destruct (pid_of s (fst k)) as [pi|] eqn:P1; [|exact I].
+    destruct (pid_of s (snd k)) as [po|] eqn:P2; [|exact I].
+    destruct I as [Ip Itl Iml Imt Ic Ie].
+    destruct (cache_get (cache s) (pi, po)) as [cm|] eqn:C.
+    + constructor; cbn [tensors models roots cache explainers next]; auto.
+      intros e' m' [K|K]; [|eauto]. injection K as <- <-.
+      apply cache_get_in in C. destruct (Ic _ _ C) as [k' [Hk' _]]. eauto.
+    + constructor; cbn [tensors models roots cache explainers next]; auto.
+      * intros key cm [K|K]; [|auto]. injection K as <- <-. exists k. auto.
+      * intros e' m' [K|K]; [|eauto]. injection K as <- <-. eauto.
+Qed.
+
+Lemma run_inv h : Inv (run h).
+Proof.
+  unfold run. induction h as [|o h IH] using rev_ind; [exact inv_init|].
+  rewrite fold_left_app. cbn [fold_left]. apply step_inv. exact IH.
+Qed.
+
+(* ---------- the cache never substitutes a different function ---------- *)
+Theorem cache_sound_step s e m k : Inv s -> find_model s m = Some k ->
+  effective (step s (NewExplainer e m)) e = Some k.
+Proof.
+  intros I Hk. pose proof I as [Ip Itl Iml Imt Ic Ie].
+  unfold find_model in Hk. cbn [step]. unfold find_model. rewrite Hk.
+  destruct (Imt m k Hk) as [T1 T2].
+  destruct (assoc_some _ _ T1) as [pi P1]. destruct (assoc_some _ _ T2) as [po P2].
+  unfold pid_of at 1 2. rewrite P1, P2.
+  destruct (cache_get (cache s) (pi, po)) as [cm|] eqn:C.
+  - unfold effective, fn_of, find_model. cbn [explainers models assoc]. rewrite Nat.eqb_refl.
+    apply cache_get_in in C. destruct (Ic _ _ C) as [k' [Hk' [Q1 Q2]]]. cbn [fst snd] in Q1, Q2.
+    rewrite Hk'. f_equal. unfold pid_of in Q1, Q2.
+    destruct k as [a b], k' as [a' b']. cbn [fst snd] in *.
+    rewrite (pid_unique (tensors s) a' a pi Ip Q1 P1), (pid_unique (tensors s) b' b po Ip Q2 P2). reflexivity.
+  - unfold effective, fn_of, find_model. cbn [explainers models assoc]. rewrite Nat.eqb_refl. exact Hk.
+Qed.
+
+(* for every history: a new explainer explains the function of the model it was given *)
+Theorem cache_sound h e m k : find_model (run h) m = Some k ->
+  effective (run (h ++ [NewExplainer e m])) e = Some k.
+Proof.
+  intro Hk. unfold run. rewrite fold_left_app. cbn [fold_left]. apply cache_sound_step; [apply run_inv | exact Hk].
+Qed.
+
+(* ... and keeps explaining it whatever happens later: models created, shared, discarded and collected,
+   other explainers created for the same or other models *)
+Theorem explainer_stable s o e f : Inv s -> effective s e = Some f ->
+  (forall m, o <> NewExplainer e m) -> effective (step s o) e = Some f.
+Proof.
+  intros I He Hne. pose proof I as [Ip Itl Iml Imt Ic Ie].
+  unfold effective in *. destruct (assoc e (explainers s)) as [mh|] eqn:E; [|discriminate].
+  unfold fn_of, find_model in *.
+  assert (Hlt : mh < next s) by (apply Iml; eapply assoc_in_fst; exact He).
+  destruct o as [pin pout | m0 | m | e' m]; cbn [step].
+  - destruct (pid_free s pin && pid_free s pout && negb (pin =? pout)); cbn [explainers models]; rewrite E; [|exact He].
+    rewrite assoc_cons_ne by lia. exact He.
+  - unfold find_model. destruct (assoc m0 (models s)); cbn [explainers models]; rewrite E; [|exact He].
+    rewrite assoc_cons_ne by lia. exact He.
+  - cbn [gc explainers models roots cache tensors next]. rewrite E.
+    rewrite assoc_filter; [exact He | intros; reflexivity|].
+    intros v _. cbn [fst]. unfold reachable. cbn [roots cache explainers]. apply orb_true_iff; right.
+    apply mem_in. apply in_map_iff. exists (e, mh). split; [reflexivity | apply assoc_in; exact E].
+  - unfold find_model. destruct (assoc m (models s)) as [k|]; [|rewrite E; exact He].
+    destruct (pid_of s (fst k)); [|rewrite E; exact He]. destruct (pid_of s (snd k)); [|rewrite E; exact He].
+    assert (e' <> e) by (intro K; subst; eapply Hne; reflexivity).
+    destruct (cache_get (cache s) (p, p0)); cbn [explainers models]; rewrite assoc_cons_ne by assumption; rewrite E; exact He.
+Qed.
+
+(* why the strong reference matters: with a cache that does not keep the model alive, a discarded model's
+   id() can be reused by a different model, and the stale entry is then returned for it — a history on which a
+   weak cache would hand the new explainer a freed object.  (The real cache holds the model, so this history
+   cannot reuse the ids: [step] refuses the NewModel, i.e. Python cannot produce it.) *)
+Example ids_cannot_be_reused_while_cached :
+  let h := [NewModel 10 11; NewExplainer 0 2; Discard 2; NewModel 10 11] in
+  map fst (models (run h)) = [2] /\ effective (run (h ++ [NewExplainer 1 2])) 1 = Some (0, 1).
+Proof. vm_compute. split; reflexivity. Qed.
